@@ -212,6 +212,7 @@ class Shadow:
         self.hid = {}
         self.shadow = {}      # res -> plain data | MISSING
         self.virtual = {}     # res -> constructor data of an object whose resource is missing
+        self.unjudged = set() # resources removed from outside and not re-established yet
         self.violations = []  # (property, message)
         self.stats = {"ops": 0, "mutators": 0, "deep": 0, "errors": 0, "detached": 0, "rejected": 0}
 
@@ -292,10 +293,19 @@ class Shadow:
             self.world.write(op[1], op[2])
             self.shadow[op[1]] = copy.deepcopy(op[2])
             self.virtual.pop(op[1], None)
+            self.unjudged.discard(op[1])
             return
         if kind == "extdel":
+            # An outside writer removes the resource.  The library treats a missing resource as "no
+            # data": every object keeps the memory it has, and the next mutator re-creates the
+            # resource from the memory of the object it goes through.  The properties do not say
+            # which object's view that should be, so the oracle does not judge this resource until
+            # its content is re-established (by the library or by an outside write); the C17 check
+            # (reads never write) and the model correspondence keep applying.
             self.world.delete(op[1])
             self.shadow[op[1]] = MISSING
+            self.unjudged.add(op[1])
+            self.virtual.pop(op[1], None)
             return
         assert kind == "call"
         _, h, name, *args = op
@@ -306,6 +316,25 @@ class Shadow:
         self.stats["ops"] += 1
         if is_mut:
             self.stats["mutators"] += 1
+        if res in self.unjudged:
+            before_file = self.world.read(res)
+            try:
+                from proto import apply_call
+                real = apply_call(obj, name, args)
+            except Exception:  # noqa: BLE001
+                real = None
+            if isinstance(real, (list, tuple)):
+                for x in real:
+                    self._register(x)
+            self._register(real)
+            after_file = self.world.read(res)
+            if not is_mut and ((before_file is MISSING) != (after_file is MISSING) or
+                               (before_file is not MISSING and not strict_eq(before_file, after_file))):
+                self.v("C17", "read %s changed the backend" % name)
+            if after_file is not MISSING:
+                self.shadow[res] = copy.deepcopy(after_file)
+                self.unjudged.discard(res)
+            return
         path = self.locate(obj)
         mem_root = root._to_base()
         tgt = None if path is None else self.shadow_at(res, mem_root, path)
